@@ -7,12 +7,15 @@ import pipe
 
 ID = "C03"
 MODULE = "C03"
-IMPORTS = "Bytes RustInt Range CacheControl Cache CacheProofs Fixture CacheX CacheXProofs CacheXWitness CacheKey CacheKeyProofs"
+IMPORTS = "Bytes RustInt Range CacheControl Cache CacheProofs Fixture CacheX CacheXProofs CacheXWitness CacheKey CacheKeyProofs RuleSet CacheRules CacheRulesProofs"
 PROFILES = ("dev",)
 MAX_NOT_EXECUTED = 0
 _PINS = json.load(open(os.path.join(os.path.dirname(os.path.abspath(__file__)), "pins", "C03.json")))
 THEOREMS = [(n, _PINS[n]) for n in ("cache_transparent", "cache_hit_same_class", "cache_transparent_from_empty", "key_injective",
                                     "cache_transparent_uri", "cache_hit_same_uri", "query_start_needed",
+                                    "key_is_raw_path", "decoded_key_collides_refuted",
+                                    "vary_rules_most_specific", "vary_exact_rule_wins", "vary_longest_pattern_wins",
+                                    "length_first_shadows_exact_refuted",
                                     "override_poisons_refuted", "stream_vary_refuted", "qm_variant_refuted")]
 RULE = ("histories of requests/clears/waits against kvarn::handle_cache in process (harness/src/c04x.rs): (a) host with response cache vs. the Coq cache "
         "model Model/CacheX.v (component pipex.run; correspondence: status, vary / x-h / last-modified presence, decoded body, identity body, stream, "
